@@ -19,6 +19,11 @@ func Harness_C14_forms() {
 	relayState := verifHostile + verifNondetString("relayState")
 	// the destination is a URL of URL-safe text (html/template normalises other characters inside URL attributes)
 	dest := "https://idp.example.com/sso?x=" + verifNondetString("destination")
+	scriptDest := verifChoose("destination.script", 2) == 1
+	if scriptDest {
+		// a destination that is itself a script URL (metadata built in code never went through the endpoint checks)
+		dest = "javascript:verifscript//" + verifNondetString("destination")
+	}
 	var body []byte
 	msgField := "SAMLRequest"
 	switch verifChoose("form", 4) {
@@ -59,10 +64,13 @@ func Harness_C14_forms() {
 		msgField = "SAMLResponse"
 		verifReach("idp-response-form")
 	}
+	if scriptDest {
+		verifAssert(verifFormInert(body, "javascript:verifscript"), "C14/forms/no-script-url-reaches-the-form")
+	}
 	verifAssert(verifFormInert(body, verifHostile), "C14/forms/peer-strings-are-inert")
 	action, ok := verifFormField(body, "action")
 	verifAssert(ok, "C14/forms/action-present")
-	if ok {
+	if ok && !scriptDest {
 		verifAssert(action == dest, "C14/forms/action-is-the-destination")
 	}
 	rs, ok := verifFormField(body, "RelayState")
